@@ -176,16 +176,15 @@ func expandLabel(h func() hash.Hash, secret []byte, label string, ctx []byte, n 
 // open13 decrypts the protected records of one direction under a traffic
 // secret, starting at sequence number 0, and returns the handshake messages of
 // the records it could open (it stops at the first record that does not open:
-// that one belongs to the next epoch).
-func open13(suite uint16, secret []byte, recs []tlsx.Record) ([]hsMsg, int, error) {
+// that one belongs to the next epoch). alerts: the alerts found inside the opened records.
+func open13(suite uint16, secret []byte, recs []tlsx.Record) (msgs []hsMsg, alerts []wAlert, nOpened int, err error) {
 	s, ok := suites13[suite]
 	if !ok {
-		return nil, 0, fmt.Errorf("unknown TLS 1.3 suite %04x", suite)
+		return nil, nil, 0, fmt.Errorf("unknown TLS 1.3 suite %04x", suite)
 	}
 	key := expandLabel(s.h, secret, "key", nil, s.keyLen)
 	iv := expandLabel(s.h, secret, "iv", nil, 12)
 	var aead cipher.AEAD
-	var err error
 	if s.chacha {
 		aead, err = chacha20poly1305.New(key)
 	} else {
@@ -195,7 +194,7 @@ func open13(suite uint16, secret []byte, recs []tlsx.Record) ([]hsMsg, int, erro
 		}
 	}
 	if err != nil {
-		return nil, 0, err
+		return nil, nil, 0, err
 	}
 	var buf []byte
 	seq := uint64(0)
@@ -221,14 +220,17 @@ func open13(suite uint16, secret []byte, recs []tlsx.Record) ([]hsMsg, int, erro
 			i--
 		}
 		if i < 0 {
-			return nil, opened, errors.New("TLSInnerPlaintext without content type")
+			return nil, alerts, opened, errors.New("TLSInnerPlaintext without content type")
 		}
 		if pt[i] == recHandshake {
 			buf = append(buf, pt[:i]...)
 		}
+		if pt[i] == recAlert && i == 2 {
+			alerts = append(alerts, wAlert{Level: pt[0], Desc: pt[1], Protected: true})
+		}
 	}
 	m, err := splitMessages(buf)
-	return m, opened, err
+	return m, alerts, opened, err
 }
 
 // ---- ServerKeyExchange signature ----
